@@ -13,8 +13,8 @@ CLAIMS = {
                 'token chain it reads, that fold yields a well-precedenced tree with the same token order, and every well-precedenced tree is rebuilt '
                 'from its own chain (so the tree is unique); unbounded in chain length and nesting; soundness holds for EVERY successful parse (the operators a '
                 'parse can produce are exactly the documented ones: C02_sound_total). The regex engine is proved equal to a fuel-free structural evaluator '
-                '(Proofs/RegexEval.v) and 9 of the 11 regenerated token regexes have a proved direct reading (operator = first matching spelling after white '
-                'space, etc.). The precedence table and every token regex of the '
+                '(Proofs/RegexEval.v) and all 12 regenerated token regexes and the 3 un-escape regexes have a proved direct reading (operator = first matching spelling after white '
+                'space; string literal = left-to-right scanner closing at the first unescaped quote, else at the last quote; etc.). The precedence table and every token regex of the '
                 'model are regenerated from parser.py on each run, the table obligation (lower <-> strictly lower documented level) is re-decided by '
                 'vm_compute, and the model is run inside Coq against the implementation on generated texts.',
         'note': 'trusted: Coq kernel/vm_compute; translator; hand-written regex engine and parser transliteration (tied by differential runs, not proved '
